@@ -156,9 +156,9 @@ def series_case(ctx):
         mult = nr.choice([0.5, 1.0, 1.0, 1.0, 1.0, 1.0, 2.0], size=n)
         if r.random() < 0.5:
             mult = np.where(nr.random(n) < 0.6, 1.0, mult)
-        # (exponent kept within +-30 so that level / running-max stays far above 2^-53, where
-        #  level/max - 1 would round to exactly -1 although the level is positive)
-        expo = np.clip(np.cumsum(np.log2(mult)), -30, 30)
+        # (exponent kept within +-25 so that level / running-max stays above 2^-50: below 2^-53,
+        #  level/max - 1 rounds to exactly -1 although the level is positive)
+        expo = np.clip(np.cumsum(np.log2(mult)), -25, 25)
         lev = 100.0 * scale * np.exp2(expo)
         ctx.cat("tied-returns")
     elif r.random() < 0.25 and n >= 4:
